@@ -1687,10 +1687,17 @@ impl VirtualFileSystem for Memfs {
             Some(_) => return Err(PathError::is_not_dir(dst_base.dir()?).into()),
             None => return Err(PathError::parent_not_found(dst_base.dir()?).into()),
         }
-        // Replace destination files and links but never directories
+        // Replace the destination the way a rename does: a directory only replaces an empty
+        // directory, files and links only replace files and links
+        let src_is_dir = guard.get_entry(&src_root).map(|x| x.is_dir() && !x.is_symlink()).unwrap_or(false);
         if let Some(entry) = guard.get_entry(&dst_base) {
-            if entry.is_dir() && !entry.is_symlink() {
-                return Err(PathError::exists_already(dst_base).into());
+            let dst_is_dir = entry.is_dir() && !entry.is_symlink();
+            if src_is_dir && !dst_is_dir {
+                return Err(PathError::is_not_dir(dst_base).into());
+            } else if !src_is_dir && dst_is_dir {
+                return Err(PathError::is_not_file(dst_base).into());
+            } else if dst_is_dir && entry.files.as_ref().map(|x| !x.is_empty()).unwrap_or(false) {
+                return Err(PathError::dir_contains_files(dst_base).into());
             }
             guard.remove_file(&dst_base);
             guard.remove_entry(&dst_base);
